@@ -158,8 +158,13 @@ func (c *Ctx) convxRun() []*opsVerdict {
 								bad("%s yields %s: the value passes through a narrower type (%s) on its way to %s and loses precision or range", where, oc.expr, strings.TrimSuffix(frag, "("), t2)
 							}
 						}
+						// whole-number payloads: int and int64 are one representation, a conversion between them changes nothing
+						normCell := normConv
+						if t1 == "Integer" || t1 == "Long" {
+							normCell = func(e string) string { return normIntIdentity(normConv(e)) }
+						}
 						if spec, ok := convUnsafeOracle[t1][t2]; ok && len(oc.conds) == 0 {
-							if want := xlateOracle(spec.expr); normConv(oc.expr) != normConv(want) {
+							if want := xlateOracle(spec.expr); normCell(oc.expr) != normCell(want) {
 								bad("%s yields %s; the statement's convention is %s", where, oc.expr, want)
 							}
 						}
@@ -168,7 +173,7 @@ func (c *Ctx) convxRun() []*opsVerdict {
 							k := t1 + ">" + t2
 							if manager == "TypeUnsafeVariantOperations" {
 								unsafeCells[k] = oc.expr
-							} else if u, ok := unsafeCells[k]; ok && normConv(u) != normConv(oc.expr) {
+							} else if u, ok := unsafeCells[k]; ok && normCell(u) != normCell(oc.expr) {
 								bad("%s yields %s where the type-unsafe manager yields %s", where, oc.expr, u)
 							}
 							ucMu.Unlock()
@@ -515,4 +520,57 @@ func normConv(e string) string {
 		e = e[:innerStart] + e[loc[1]:j] + e[j+1:]
 	}
 	return e
+}
+
+// normIntIdentity removes conversions between int and int64 around whole-number expressions of a cell whose
+// payload symbols (x, c1, c2) are Integer or Long payloads: both types are 64-bit signed integers on the
+// platform the machine models, so such a conversion is the identity whatever it is applied to - a symbol, or
+// an expression built from the symbols and integer literals with integer operators. Anything else stays:
+// conversions to or from narrower integer types, floating-point conversions, host functions, comparisons.
+func normIntIdentity(e string) string {
+	for changed := true; changed; {
+		changed = false
+		for _, pre := range []string{"conv<int64>(", "conv<int>("} {
+			for from := 0; ; {
+				i := strings.Index(e[from:], pre)
+				if i < 0 {
+					break
+				}
+				i += from
+				j := matchingParen(e, i+len(pre)-1)
+				if j < 0 {
+					break
+				}
+				if inner := e[i+len(pre) : j]; isWholeNumberExpr(inner) {
+					e = e[:i] + inner + e[j+1:]
+					changed = true
+				} else {
+					from = i + len(pre)
+				}
+			}
+		}
+	}
+	return normTree(e)
+}
+
+var reWholeAtom = regexp.MustCompile(`^[-^]?(x|c1|c2|[0-9]+)$`)
+
+// isWholeNumberExpr: symbols x / c1 / c2 and integer literals combined by integer operators (as the machine prints them).
+func isWholeNumberExpr(e string) bool {
+	e = strings.NewReplacer("(", " ", ")", " ").Replace(e)
+	fs := strings.Fields(e)
+	if len(fs) == 0 {
+		return false
+	}
+	for _, f := range fs {
+		switch f {
+		case "+", "-", "*", "/", "%", "&", "|", "^", "&^", "<<", ">>":
+			continue
+		}
+		f = strings.TrimLeft(f, "-^")
+		if !reWholeAtom.MatchString(f) {
+			return false
+		}
+	}
+	return true
 }
